@@ -33,6 +33,9 @@ class Ref:
         if c == "set":
             self.kv[k] = cmd[2]
             return "+OK"
+        if c == "setex":
+            # only refused forms are generated (expire time 0 or not a number): no effect
+            return "-ERR"
         if c == "incr":
             v = int(self.kv.get(k, "0")) + 1
             self.kv[k] = str(v)
@@ -173,7 +176,8 @@ def oracle_dir(runs):
             fails.append(dict(name="dumperr-d%d-r%d" % (r["dir"], r["run"]), case=dict(ident, dump=dumpv), what="reading the restarted node failed: " + dumpv[0]))
             return fails, stats
         # every acknowledged op is in; each unanswered / error-answered op is in or out
-        doubt = [i for i, p in enumerate(pending) if p[1] != "ack"]
+        # (a refused SETEX has no effect whether it was proposed or not: it is not a choice)
+        doubt = [i for i, p in enumerate(pending) if p[1] != "ack" and p[0][0] != "setex"]
         ok = None
         if len(doubt) <= 10:
             for choice in itertools.product([False, True], repeat=len(doubt)):
@@ -181,7 +185,7 @@ def oracle_dir(runs):
                 st = base.copy()
                 good = True
                 for i, (cmd, status, reply) in enumerate(pending):
-                    if status != "ack" and not inc[i]:
+                    if status != "ack" and not inc.get(i, True):
                         continue
                     rep = st.apply(cmd)
                     # PFADD's reply ("a register changed") depends on the HLL representation in memory, not only on
@@ -219,7 +223,7 @@ def oracle_dir(runs):
                 stats["acked"] += 1
                 stats["reply_checked"] += 1
             elif status == "lost":
-                stats["lost_applied" if inc[i] else "lost_dropped"] += 1
+                stats["lost_applied" if inc.get(i, True) else "lost_dropped"] += 1
             else:
                 stats["indoubt_err"] += 1
         base = st
@@ -331,6 +335,22 @@ def gen_jobs(seed, ndirs, cycles, engines, known, cover_once=False):
             # a death during the restart itself at a point that is also hit by a running node
             specs.append("S:%s:1" % START_ALSO[(d + seed) % len(START_ALSO)])
         jobs.append(dict(seed=rnd.randrange(1 << 40), engine=engines[d % len(engines)], optfsync=(d % 3 != 2), ops_max=OPS_MAX, specs=specs))
+    return jobs
+
+
+def gen_sparse_snapshots(seed, njobs, engines):
+    """few snapshots per WAL segment (SnapCount 60, segments of about 65 entries, KeepWAL 2): after the purge at a start
+    the oldest remaining segment holds the marker of the only snapshot the node can restart from; then restarts that
+    are not separated by a new snapshot (a restart must leave a directory the next restart can start from)"""
+    rnd = __import__("random").Random(seed + 57)
+    jobs = []
+    for d in range(njobs):
+        specs = ["X:%d:%d" % (rnd.randint(66, OPS_MAX - 1), rnd.randint(0, 7)), "X:%d:%d" % (rnd.randint(66, OPS_MAX - 1), rnd.randint(0, 7)),
+                 rnd.choice(["X:1:0", "X:2:3", "S:rc.replay.after:1", "S:rc.snap.chosen:1"]),
+                 rnd.choice(["X:1:0", "S:rc.restore.after:1", "X:3:1"]),
+                 # (the purge of the WAL directory acts at the start that finds a third segment; restarts follow it)
+                 "X:1:0", rnd.choice(["X:2:0", "S:rc.snap.chosen:1"]), "X:1:0"]
+        jobs.append(dict(seed=rnd.randrange(1 << 40), engine=engines[d % len(engines)], optfsync=(d % 2 == 0), ops_max=OPS_MAX, specs=specs, snap_count=60))
     return jobs
 
 
@@ -605,11 +625,13 @@ def run(ctx):
         batches.append(("corpus", corpus))
         if quick:
             batches.append(("follower", gen_follower(ctx.seed, 6, ["pebble", "rocksdb", "mem"], cover_once=True)))
+            batches.append(("sparse", gen_sparse_snapshots(ctx.seed, 3, ["pebble", "rocksdb", "mem"])))
             batches.append(("fresh", gen_jobs(ctx.seed, 12, 4, ["pebble", "rocksdb", "mem"], known, cover_once=True)))
         else:
             batches.append(("fresh", gen_jobs(ctx.seed, 320, 9, engines, known)))
             batches.append(("systematic", gen_systematic(ctx.seed, engines, known, [1, 2, 3, 4, 5, 8, 13, 21, 34, 47, 55, 69])))
             batches.append(("follower", gen_follower(ctx.seed, 160, engines, lives=4)))
+            batches.append(("sparse", gen_sparse_snapshots(ctx.seed, 45, engines)))
 
     all_fail, all_mism, stats_all, hist_all, samples = [], [], {}, {}, []
     model_stats = {}
